@@ -1492,9 +1492,13 @@ static bool alloc_should_fail(void)
 	}
 	return false;
 }
+/* one address-space budget for every build: a request beyond it fails like malloc does under a limit, instead of
+ * depending on how much memory the machine happens to have free */
+static const size_t ALLOC_CAP = (size_t)4096 << 20;
+
 void *__wrap_malloc(size_t n)
 {
-	if (alloc_should_fail()) {
+	if (n > ALLOC_CAP || alloc_should_fail()) {
 		errno = ENOMEM;
 		return NULL;
 	}
@@ -1502,7 +1506,7 @@ void *__wrap_malloc(size_t n)
 }
 void *__wrap_calloc(size_t a, size_t b)
 {
-	if (alloc_should_fail()) {
+	if ((b && a > ALLOC_CAP / b) || alloc_should_fail()) {
 		errno = ENOMEM;
 		return NULL;
 	}
@@ -1510,7 +1514,7 @@ void *__wrap_calloc(size_t a, size_t b)
 }
 void *__wrap_realloc(void *p, size_t n)
 {
-	if (alloc_should_fail()) {
+	if (n > ALLOC_CAP || alloc_should_fail()) {
 		errno = ENOMEM;
 		return NULL;
 	}
